@@ -437,8 +437,8 @@ impl Property for C27 {
         "the daemon scenarios wait (up to 60 s) for the key task to publish on its watch channel, which happens right after the first store attempt",
         "daemon path: panics inside the blocking load task are absorbed by tokio in this (unwinding) build; they are detected by the library-level cases instead",
     ];
-    const QUICK_CASES: u32 = 150_000;
-    const THOROUGH_CASES: u32 = 6_000_000;
+    const QUICK_CASES: u32 = 600_000;
+    const THOROUGH_CASES: u32 = 10_000_000;
 
     fn strategy(_tier: Tier) -> BoxedStrategy<Case> {
         prop_oneof![
